@@ -214,8 +214,20 @@ func (g *c15Gen) action() bool {
 		stmts = append(stmts, ast.Print(ast.Str("SV"), ast.Id("sv"), ast.Method(ast.Id("sv"), "length")))
 		label = "sort-then-store"
 	case k == 17:
-		// push returns the array: use the result without storing it anywhere else
-		res(ast.Method(ast.Method(a.expr(), "push", g.scalarElem()), "length"))
+		// push returns the array (not a copy, not a view): use the result without storing it
+		// anywhere else, or change its length again through it
+		switch g.n(0, 3, "pushresult") {
+		case 0:
+			res(ast.Method(ast.Method(a.expr(), "push", g.scalarElem()), "length"))
+		case 1:
+			stmts = append(stmts, ast.ExprS(ast.Method(ast.Method(a.expr(), "push", g.scalarElem()), "push", g.scalarElem())))
+		case 2:
+			res(ast.Method(ast.Method(a.expr(), "push", g.scalarElem()), rapid.SampledFrom([]string{"pop", "popfirst"}).Draw(g.t, "chainop")))
+		default:
+			stmts = append(stmts, ast.ExprS(ast.Set(ast.Id("pr"), ast.Method(a.expr(), "push", g.scalarElem()))), ast.ExprS(ast.Method(ast.Id("pr"), "push", g.scalarElem())),
+				ast.ExprS(ast.Method(a.expr(), "push", g.scalarElem())), ast.Print(ast.Str("PR"), ast.Id("pr")))
+		}
+		g.last[a.name] = ""
 		label = "push-result"
 	default:
 		// nested calls: the receiver of the outer call must survive the inner one
